@@ -11,8 +11,8 @@ CHECKS = {
     "C01": ("property-based differential testing against a reference evaluator (rapid, typed expression generator)",
             "Generated expressions over the whole operator table, bindings incl. failing ones; Eval/EvalBool/one-shot Eval compared with an independent reference evaluator on value, error class (errors.Is on sentinels) and the exact sequence of fetches and custom-operator calls. Exploration: thousands of distinct non-trivial programs per run, no claim beyond them.",
             "Trusted: the reference evaluator and operator model in harness/model (written from README/property text). and/or operands are boolean-typed or always failing.", "§3 C01"),
-    "C02": ("property-based metamorphic + differential testing over all 16 optimization subsets (rapid)",
-            "Each generated expression x cost map is compiled under all 16 subsets, each subset also expressed a second way (sparse map / option function / ;;;; directives); outcomes compared pairwise, with the reference evaluator R/R_eager on the source tree, and with R on each configuration's own Dump. Exploration.",
+    "C02": ("property-based metamorphic + differential testing over all 16 optimization subsets, exhaustive over the boolean variables of small programs (rapid) + coverage-guided search over the same generator (thorough)",
+            "Each generated expression x cost map is compiled under all 16 subsets, each subset also expressed a second way (sparse map / option function / ;;;; directives); outcomes compared pairwise, with the reference evaluator R/R_eager on the source tree, and with R on each configuration's own Dump; for programs with 1..5 boolean variables all their assignments are run through all 16 programs (every path). Exploration.",
             "Trusted: reference evaluator, Dump reader. All variables bound; custom operators pure (no stateful operator under reordering).", "§3 C02"),
     "C03": ("property-based testing with instrumented fetcher/operators: effect-trace equality against the reference evaluator run on the dumped program (rapid)",
             "The ordered log of every VariableFetcher.Get and every registered-operator call (arguments, result/error) made by Eval is compared with the trace of left-to-right short-circuit evaluation of the tree read back from Dump, for all 16 subsets. Exploration.",
@@ -21,7 +21,7 @@ CHECKS = {
             "Generated expression x subset x availability split; a definite TryEval answer is compared with the engine's Eval under every completion from small per-type domains (full product when <= 64); full availability: TryEval = Eval; larger availability set: same answer. Exploration.",
             "Completions are a structured finite sample of an infinite value space. Fetcher reports availability truthfully.", "§3 C04"),
     "C05": ("property-based differential testing of TryEval against an independent Kleene evaluator (rapid)",
-            "Generated non-failing expression (repaired, not filtered) x 16 subsets x availability split: whenever Kleene evaluation is definite TryEval must return exactly that value, otherwise DNE with nil error (TryEvalBool: ErrDNE). Exploration.",
+            "Generated non-failing expression (repaired, not filtered) x 16 subsets x availability split: whenever Kleene evaluation is definite TryEval must return exactly that value, otherwise DNE with nil error (TryEvalBool: ErrDNE); the same through contexts the library builds, for one-variable infix programs, and for programs whose names are registered after compilation. Exploration.",
             "Trusted: Kleene evaluator K and operator model in harness/model.", "§3 C05"),
     "C06": ("grammar-based fuzzing (rapid token soup, mutation of valid programs, untyped programs, exhaustive truncation) + Go native coverage-guided fuzzing; validity-predicate oracle",
             "Every generated text is compiled under a drawn notation/option set; Compile must return exactly one of program/error without panicking; each compiled program runs Eval, TryEval, Dump, DumpTable under hostile bindings; a watchdog turns non-termination into a replayable violation and LOOP event positions must strictly increase. Thorough adds 90 s of native fuzzing on 16 workers. Exploration: absence of panics is never established.",
@@ -36,7 +36,7 @@ CHECKS = {
             "Version pairs at carry boundaries / differing component counts / every valid length, date pairs formatted by the harness in default and custom layouts (incl. zone offsets) through every operator name; encodings compared with a positional model and days-from-civil arithmetic, order checked through the engine's own comparison operators; fixed rejection list. Exploration.",
             "Domain: components 0..9999, component count <= valid length; years 1..9999; five layouts the harness can format and parse by hand.", "§3 C19"),
     "C20": ("property-based differential testing of the generator's reported result against the reference evaluators R / K (rapid)",
-            "For generated (seed, level, type, options, variable maps) the returned text is read by the harness's own reader and evaluated by R or K; Res must match, the reference must not fail, and the engine's Compile/Eval/TryEval must agree under all 16 subsets. Exploration. One open known finding (level 0 returns a bare atom).",
+            "For generated (seed, level, type, options, variable maps) the returned text is read by the harness's own reader and evaluated by R or K; Res must match, the reference must not fail, and the engine's Compile/Eval/TryEval must agree under all 16 subsets. Exploration. Levels 0..12 plus, in one case out of 25, 13..129. Two open known findings (level 0 returns a bare atom; very high levels return more nodes than a program may have).",
             "Variables are passed one map per variable in sorted order so that a run is a function of the seed.", "§3 C20"),
     "C11": ("stateful property-based testing of registration histories with an independent normalisation oracle (rapid)",
             "Generated histories (pre-populated key maps with boundary keys, GetOrRegisterKey / RegVarAndOp / repeated requests in drawn order, undefined-variable mode) with an invariant after every step (injective, no reassignment), then every variable read back positionally through NewCtxFromVars against the harness's own normalisation of raw values of every documented type. Exploration.",
@@ -54,19 +54,19 @@ CHECKS = {
             "Generated wide and/or trees over pairwise distinct variables with many equal-cost operands, integer cost maps, a name X: permutation-only, stability, monotonicity under X+=delta, separation under X:=1e12, and evaluation order = dumped order, for all 8 settings of the other optimizations. Exploration.",
             "Integer-valued finite costs (exact in float64). Trusted: Dump reader.", "§3 C16"),
     "C07": ("stateful property-based testing of sequential and concurrent call histories under the Go race detector, with per-call isolated reference results and a before/after program snapshot (rapid)",
-            "Generated histories over 1-3 shared programs (with and without event mode): 10-60 sequential calls, then 2-16 goroutines x 10-200 calls behind a barrier; each call must return what a fresh unshared compilation returns; the flat program (read-only hook) must be bit-identical afterwards; the whole binary runs with -race, halting on the first report with the case already on disk. Exploration: interleavings are sampled by the scheduler, not enumerated.",
+            "Generated histories over 1-3 shared programs (with and without event mode): 10-60 sequential calls (none in one history out of four), then 2-16 goroutines (sometimes 130-320) x 10-200 calls behind a barrier, GOMAXPROCS 1/2/4/all drawn per history and the harness's fetchers and operators yielding the processor at drawn points (so that whole evaluations run between two fetches of another one), some calls carrying a cancelled context; each call must return what a fresh unshared compilation returns; an error once returned keeps its text; the flat program (read-only hook) must be bit-identical afterwards; the whole binary runs with -race, halting on the first report with the case already on disk. Exploration: interleavings are sampled by the scheduler, not enumerated.",
             "The race detector is happens-before based: an unsynchronised write to shared program state is reported on any schedule in which both accesses occur. Custom operators used here are pure and lock-free.", "§3 C07"),
     "C08": ("stateful property-based testing of Compile/CopyConfig/ExtendConf histories with deep config snapshots, repeated and concurrent compilation under the Go race detector (rapid)",
-            "Generated histories over one shared Config and several sources with valid, malformed or no directives: the caller's config is deep-compared after every Compile, the same source must always yield the same verdict/Dump/DumpTable/outcomes (again, reversed, on copies, concurrently from 2-8 goroutines), mutations of copies never reach the source and vice versa; a fixed set of canary programs compiled before the first and after the last case of every shard must give identical results (whole-run history). Exploration.",
+            "Generated histories over one shared Config and several sources with valid, malformed or no directives: the caller's config is deep-compared after every Compile, the same source must always yield the same verdict/Dump/DumpTable/outcomes (again, reversed, on copies, with a nil config before and after nil-config compilations that carry directives, concurrently from 2-8 goroutines under a drawn GOMAXPROCS), mutations of copies never reach the source and vice versa; a fixed set of canary programs compiled before the first and after the last case of every shard must give identical results (whole-run history). Exploration.",
             "Mutable state of a Config = its five maps and the stateless slice (list-valued constants are shared by reference; not asserted).", "§3 C08"),
     "C09": ("constructed boundary-value generation with an exhaustive parameter grid + random sampling around the limits; differential against the reference evaluator and the harness's own size accounting (rapid)",
-            "Programs built to sit on the 127-operand, 16383/16384-node (event doubling), 32767-node and 8/16 stack-class boundaries, x option subsets x event modes: Compile must accept every program the harness's size model puts within the limits and never panic; a program the model puts beyond a limit is rejected, or compiles to something smaller that is itself within the limits; every compiled program (size and widest operator read through the hook) is within the limits, has a sufficient stack bound and evaluates (Eval and TryEval) to R's value. The grid is enumerated (reduced in quick, full in thorough). Exploration over the constructed family.",
+            "Programs built to sit on the 127-operand, 16383/16384-node (event doubling), 32767-node and 8/16 stack-class boundaries, x option subsets x event modes (none, ReportEvent, Debug, both, keys present and false) x placement below an if: Compile must accept every program the harness's size model puts within the limits and never panic; a program the model puts beyond a limit is rejected, or compiles to something smaller that is itself within the limits; every compiled program (size and widest operator read through the hook) is within the limits, has a sufficient stack bound and evaluates (Eval and TryEval) to R's value. The grid is enumerated (reduced in quick, full in thorough). Exploration over the constructed family.",
             "Trusted: the harness's flattening model (and/or directly inside the same operator is merged) and node accounting as the definition of 'within the limits'; agreement with the compiled program's size (hook) is recorded, not demanded.", "§3 C09"),
     "C10": ("property-based testing with call-logging custom operators: compile-time vs run-time invocation accounting, repeated evaluation against the reference on the dumped program, folding-soundness predicate (rapid)",
             "Constant-dense generated trees with declared-stateless, undeclared, stateful and failing operators x 16 subsets x 1-5 evaluations: Compile never fails, invokes only declared-stateless operators; each evaluation performs exactly the calls R performs on the dumped tree with state threaded through (a baked-in result shows from the 2nd evaluation); folding is checked against the stated rule as a validity predicate. Exploration.",
             "Trusted: reference evaluator, Dump reader.", "§3 C10"),
     "C12": ("property-based testing of the event stream against the reference evaluator's list of operator applications, with retaining / buffered / scribbling consumers (rapid)",
-            "Generated case x subsets x {Eval, TryEval} x {ReportEvent, Debug} x three consumer behaviours: results, effects and Dump equal the event-free run; OP_EXEC events compared after the evaluation with R's applications on the dumped tree (names, arguments as at call time, results); retained events equal receipt-time copies; LOOP positions increase and (Eval) the Stack snapshots follow the operand-stack discipline from one LOOP event to the next, judged from public event data only. Exploration.",
+            "Generated case x subsets x {Eval, TryEval} x {ReportEvent, Debug, both} x three consumer behaviours: results, effects and Dump equal the event-free run; OP_EXEC events compared after the evaluation with R's applications on the dumped tree (names, arguments as at call time, results); retained events equal receipt-time copies; LOOP positions increase and (Eval) the Stack snapshots follow the operand-stack discipline from one LOOP event to the next, judged from public event data only. Exploration.",
             "The final fold of a non-fast and/or with no absorbing operand may or may not be reported (decided by a jump).", "§3 C12"),
 }
 
